@@ -1,4 +1,4 @@
-import TrionModel.Lemmas.LayoutTop
+import TrionModel.Lemmas.LayoutCor
 /-!
 # C05 — the program image equals the sequential layout of its statements (layout core)
 
@@ -31,89 +31,46 @@ example : run [Stmt.addr 0, .emit 1 [1] [0, 0], .addr 16, .const 1 [] 0] = .erro
 
 /-! ## The image of a successful run is the sequential layout
 
-FULL-STRENGTH STATEMENT (FALSE as it stands — see the counterexample below):
-  theorem layout_refines : run p = .ok img → (∀ s ∈ p, s.wf) → Ref.layout p = some img' → ∀ a, img.get a = img'.get a
-It fails in exactly one corner: a padding `.align n` where the reference cursor is 2^32, i.e. directly after a
-region has been filled through 0xFFFFFFFF. `Align::apply` computes the padding from `curr_addr()`, which
-saturates at 0xFFFFFFFF; for every `n ≥ 2` dividing 2^32 − 1 (3, 5, 15, 17, 51, 85, 255, 257, …) it sees offset
-0 and accepts the statement without padding and without diagnostic, whereas the reference would have to pad
-from 2^32 up to the next multiple of `n` (addresses that do not exist). For the other `n ≥ 2` the
-implementation reports an overflow diagnostic (C13 records this).
+History: with `.align` computing its padding from the saturated `curr_addr()` this statement was FALSE
+(`.addr 0xFFFFFFFF; .du8 0; .align 3;` assembled without padding, found by this proof attempt). Fix F26 makes
+`Align::apply` use the true cursor `base + len`; the model follows, and the theorem now holds without any side
+condition. -/
 
-What IS true for every program, without side condition, is `layout_refines_below_top`: the image equals the
-reference image on all addresses below 2^32 and holds nothing at or beyond 2^32 — the reference's padding
-beyond the address space is the only difference. The full equality `layout_refines_partial` carries the precise
-side condition `NoAlignAtTop p` (Spec/Layout.lean): every `.align n` met at a reference cursor `c ≥ 2^32` needs
-no padding (`Ref.size c (.align n) = 0`); it holds in particular whenever the reference image lies inside the
-32-bit address space (`layout_refines_fits_partial`). Nothing else is missing: any number of regions in any
-address order, any mix of forward and backward references, labels, constants, zero-length statements, regions
-ending exactly at 2^32. -/
-
-/-- the counterexample to the unrestricted statement: `.addr 0xFFFFFFFF; .du8 0; .align 3;` assembles
-(real `trias`: "Assembled successfully"), the reference pads at 2^32 and 2^32 + 1. -/
-example : run [Stmt.addr 4294967295, .raw [0], .align 3] = .ok [(4294967295, 0)] ∧
-    Ref.layout [Stmt.addr 4294967295, .raw [0], .align 3]
-      = some [(4294967296, 190), (4294967297, 190), (4294967295, 0)] ∧
-    ¬ NoAlignAtTop [Stmt.addr 4294967295, .raw [0], .align 3] :=
-  ⟨rfl, rfl, fun h => by
-    have := h 4294967296 3 (by simp [Ref.trace, Ref.next])
-    simp only [top] at this
-    rcases this with h1 | h1
-    · exact absurd h1 (by decide)
-    · exact absurd h1 (by decide)⟩
-
-/-- C05 (main theorem, NO side condition): for every program, on success the image is the image of the
-two-pass reference restricted to the address space — below 2^32 every statement's bytes stand at their address
-in source order, nothing else, no placeholder left; at and beyond 2^32 the image holds nothing. (The only
-thing the unrestricted statement gets wrong is the padding the reference would put beyond 2^32.) -/
-theorem layout_refines_below_top (p : List Stmt) (img img' : Img) (h : run p = .ok img) (hwf : ∀ s ∈ p, s.wf)
-    (href : Ref.layout p = some img') :
-    (∀ a, a < top → img.get a = img'.get a) ∧ (∀ a, top ≤ a → img.get a = none) := by
-  obtain ⟨im, e1, hg, hn⟩ := run_pass2_below p img h hwf
-  rw [(layout_some p img' href).2] at e1
-  cases e1
-  exact ⟨hg, hn⟩
-
-/-- non-vacuity, in the corner itself -/
-example : run [Stmt.addr 4294967295, .raw [0], .align 3] = .ok [(4294967295, 0)] ∧
-    (∀ s ∈ [Stmt.addr 4294967295, .raw [0], .align 3], s.wf) ∧
-    ∃ img', Ref.layout [Stmt.addr 4294967295, .raw [0], .align 3] = some img' :=
-  ⟨rfl, by decide, _, rfl⟩
-
-/-- C05 (main theorem, full equality): on success the image is, address by address, the image of the two-pass
-reference: every statement's bytes at its address in source order, nothing else, no placeholder left. -/
-theorem layout_refines_partial (p : List Stmt) (img img' : Img) (h : run p = .ok img) (hwf : ∀ s ∈ p, s.wf)
-    (hal : NoAlignAtTop p) (href : Ref.layout p = some img') : ∀ a, img.get a = img'.get a := by
-  obtain ⟨im, e1, hg⟩ := run_pass2 p img h hwf hal
+/-- C05 (main theorem): for EVERY program — any number of regions in any address order, any mix of forward and
+backward references, labels, constants, alignment, zero-length statements, regions ending exactly at 2^32 —
+on success the image is, address by address, the image of the two-pass reference: every statement's bytes at
+its address in source order, nothing else, no placeholder left. -/
+theorem layout_refines (p : List Stmt) (img img' : Img) (h : run p = .ok img) (hwf : ∀ s ∈ p, s.wf)
+    (href : Ref.layout p = some img') : ∀ a, img.get a = img'.get a := by
+  obtain ⟨im, e1, hg⟩ := run_pass2 p img h hwf
   rw [(layout_some p img' href).2] at e1
   cases e1
   exact hg
 
-/-- C05 (main theorem, side condition in terms of the reference image only): if the reference layout exists
-and lies inside the 32-bit address space, a successful run produces exactly that image. -/
-theorem layout_refines_fits_partial (p : List Stmt) (img img' : Img) (h : run p = .ok img) (hwf : ∀ s ∈ p, s.wf)
-    (href : Ref.layout p = some img') (hfit : ∀ a, top ≤ a → img'.get a = none) :
-    ∀ a, img.get a = img'.get a :=
-  layout_refines_partial p img img' h hwf
-    (fits_noAlign p none [] img' hwf (layout_some p img' href).2
-      (fun a ha => by unfold Img.has; rw [hfit a ha]; rfl)) href
-
-example : let p := [Stmt.addr 4294967295, .raw [9]]
-    (∃ img, run p = .ok img) ∧ (∀ s ∈ p, s.wf) ∧
-    ∃ img', Ref.layout p = some img' ∧ ∀ a, top ≤ a → img'.get a = none := by
-  refine ⟨⟨_, rfl⟩, by decide, _, rfl, fun a ha => ?_⟩
-  rw [get_put_outside _ _ _ _ (by unfold top at ha; simp only [List.length_cons, List.length_nil]; omega)]
-  rfl
+/-- the former counterexample: after F26 the padding `.align 3` directly behind 0xFFFFFFFF is an overflow
+diagnostic, `.align 2` there (2 divides 2^32, no padding needed) is accepted, and the reference agrees. -/
+example : run [Stmt.addr 4294967295, .raw [0], .align 3] = .error .overflow ∧
+    run [Stmt.addr 4294967295, .raw [0], .align 2] = .ok [(4294967295, 0)] ∧
+    Ref.layout [Stmt.addr 4294967295, .raw [0], .align 2] = some [(4294967295, 0)] := ⟨rfl, rfl, rfl⟩
 
 /-- the same without reference to pass 1: the image of a successful run is the `pass2` image (`pass2` is
 defined on every program that assembles) -/
-theorem run_is_pass2 (p : List Stmt) (img : Img) (h : run p = .ok img) (hwf : ∀ s ∈ p, s.wf)
-    (hal : NoAlignAtTop p) : ∃ img', Ref.pass2 none [] p = some img' ∧ ∀ a, img.get a = img'.get a :=
-  run_pass2 p img h hwf hal
+theorem run_is_pass2 (p : List Stmt) (img : Img) (h : run p = .ok img) (hwf : ∀ s ∈ p, s.wf) :
+    ∃ img', Ref.pass2 none [] p = some img' ∧ ∀ a, img.get a = img'.get a :=
+  run_pass2 p img h hwf
+
+/-- C05 / C13: the image of a successful run lies inside the 32-bit address space (hence so does the reference
+image of every program that assembles). -/
+theorem image_in_address_space (p : List Stmt) (img : Img) (h : run p = .ok img) (hwf : ∀ s ∈ p, s.wf) :
+    ∀ a, top ≤ a → img.get a = none :=
+  run_lt_top p img h hwf
+
+example : (∃ img, run [Stmt.addr 4294967295, .raw [9]] = .ok img) ∧
+    (∀ s ∈ [Stmt.addr 4294967295, .raw [9]], s.wf) := ⟨⟨_, rfl⟩, by decide⟩
 
 /-- C05: success implies that the reference is defined, unless a label stands where the reference cursor is
 2^32 (`Ref.pass1` is undefined there; the implementation gives such a label the value 0xFFFFFFFF). Together
-with `layout_refines_partial`: success always means "equals the reference". -/
+with `layout_refines`: success always means "equals the reference". -/
 theorem ref_defined (p : List Stmt) (img : Img) (h : run p = .ok img) (hwf : ∀ s ∈ p, s.wf)
     (hl : NoLabelAtTop p) : Ref.layout p ≠ none :=
   run_ref_defined p img h hwf hl
@@ -122,16 +79,12 @@ theorem ref_defined (p : List Stmt) (img : Img) (h : run p = .ok img) (hwf : ∀
 example : run [Stmt.addr 4294967295, .raw [0], .label 1] = .ok [(4294967295, 0)] ∧
     Ref.layout [Stmt.addr 4294967295, .raw [0], .label 1] = none := ⟨rfl, rfl⟩
 
-/-- non-vacuity of `layout_refines_partial` / `ref_defined`: forward reference, region switch downwards into a
+/-- non-vacuity of `layout_refines` / `ref_defined`: forward reference, region switch downwards into a
 region ending exactly at the deferred statement, label, padding `.align` -/
 example : let p := [Stmt.addr 260, .emit 2 [1] [7, 0], .addr 255, .raw [1], .align 4, .label 2, .raw [2, 3, 4, 5],
       .const 1 [] 7]
-    (∀ s ∈ p, s.wf) ∧ NoAlignAtTop p ∧ NoLabelAtTop p ∧ (∃ img, run p = .ok img) ∧ (∃ img', Ref.layout p = some img') := by
-  refine ⟨by decide, ?_, ?_, ⟨_, rfl⟩, ⟨_, rfl⟩⟩
-  · intro c n hc
-    simp [Ref.trace, Ref.next] at hc
-    rcases hc with ⟨rfl, rfl⟩
-    left; decide
+    (∀ s ∈ p, s.wf) ∧ NoLabelAtTop p ∧ (∃ img, run p = .ok img) ∧ (∃ img', Ref.layout p = some img') := by
+  refine ⟨by decide, ?_, ⟨_, rfl⟩, ⟨_, rfl⟩⟩
   · intro c n hc
     simp [Ref.trace, Ref.next, Ref.size] at hc
     rcases hc with ⟨rfl, rfl⟩
@@ -147,7 +100,7 @@ statement's reference address. -/
 theorem no_placeholder (p q r : List Stmt) (len : Nat) (deps : List Nat) (final : Bytes) (img : Img)
     (h : run p = .ok img) (hwf : ∀ s ∈ p, s.wf) (hp : p = q ++ .emit len deps final :: r) :
     ∃ c, Ref.cursorAfter none q = some c ∧ ∀ i, i < len → img.get (c + i) = final[i]? := by
-  obtain ⟨c, h1, h2⟩ := data_in_image p q r _ img h hwf hp rfl
+  obtain ⟨c, h1, h2⟩ := stmt_in_image p q r _ img h hwf hp rfl
   have hw : final.length = len := by
     have := hwf (.emit len deps final) (by rw [hp]; exact List.mem_append_right _ List.mem_cons_self)
     simpa [Stmt.wf] using this
@@ -159,19 +112,17 @@ example : ∃ c, Ref.cursorAfter none [Stmt.addr 260] = some c ∧
   no_placeholder [Stmt.addr 260, .emit 2 [1] [7, 0], .addr 256, .raw [1, 2, 3, 4], .const 1 [] 7]
     [.addr 260] [.addr 256, .raw [1, 2, 3, 4], .const 1 [] 7] 2 [1] [7, 0] _ rfl (by decide) rfl
 
-/-- C05 (every statement's bytes at its address): the same for every emitting statement (`raw`, `emit`, and
-padding — for padding the side condition is needed: the reference's padding beyond 2^32 is not in the image): its
-reference bytes stand at its reference address in the image. -/
+/-- C05 (every statement's bytes at its address): the same for every emitting statement (`raw`, `emit`,
+padding): its reference bytes stand at its reference address in the image. -/
 theorem every_statement_placed (p q r : List Stmt) (s : Stmt) (img : Img) (h : run p = .ok img)
-    (hwf : ∀ s ∈ p, s.wf) (hal : NoAlignAtTop p) (hp : p = q ++ s :: r) (hs : s.emits) :
+    (hwf : ∀ s ∈ p, s.wf) (hp : p = q ++ s :: r) (hs : s.emits) :
     ∃ c, Ref.cursorAfter none q = some c ∧
       ∀ i, i < (Ref.bytes c s).length → img.get (c + i) = (Ref.bytes c s)[i]? :=
-  stmt_in_image p q r s img h hwf hal hp hs
+  stmt_in_image p q r s img h hwf hp hs
 
 example : ∃ c, Ref.cursorAfter none [Stmt.addr 16] = some c ∧
     ∀ i, i < (Ref.bytes c (Stmt.raw [5, 6])).length → Img.get [(16, 5), (17, 6)] (c + i) = (Ref.bytes c (.raw [5, 6]))[i]? :=
-  every_statement_placed [.addr 16, .raw [5, 6]] [.addr 16] [] _ _ rfl (by decide)
-    (fun c n hc => by simp [Ref.trace, Ref.next] at hc) rfl rfl
+  every_statement_placed [.addr 16, .raw [5, 6]] [.addr 16] [] _ _ rfl (by decide) rfl rfl
 
 /-- C05 (a label is the address of the next emitted byte), reference level: the value `Ref.pass1` records
 for a label is the reference cursor `c` at which the next statement after it (skipping further labels and
@@ -200,13 +151,13 @@ example : ∃ c, c < top ∧ Env.get [(2, 256)] 2 = some (c : Int) ∧
 /-- C05 (a label is the address of the next emitted byte), image level: in the image of a program that
 assembles, the first byte of the next emitting statement stands at the label's value. -/
 theorem label_is_next_image (p q mid r : List Stmt) (n : Nat) (s : Stmt) (e : Env) (img : Img)
-    (hrun : run p = .ok img) (hwf : ∀ s ∈ p, s.wf) (hal : NoAlignAtTop p)
+    (hrun : run p = .ok img) (hwf : ∀ s ∈ p, s.wf)
     (h : Ref.pass1 none [] p = some e) (hp : p = q ++ .label n :: (mid ++ s :: r))
     (hmid : ∀ x ∈ mid, x.silent) (hs : s.emits) :
     ∃ c : Nat, e.get n = some (c : Int) ∧ ∀ b bs, Ref.bytes c s = b :: bs → img.get c = some b := by
   obtain ⟨c, _, h2, h3, _⟩ := label_is_next p q mid r n s e h hp hmid
   have hp' : p = (q ++ .label n :: mid) ++ s :: r := by rw [hp]; simp
-  obtain ⟨c', g1, g2⟩ := stmt_in_image p _ r s img hrun hwf hal hp' hs
+  obtain ⟨c', g1, g2⟩ := stmt_in_image p _ r s img hrun hwf hp' hs
   rw [h3] at g1; cases g1
   refine ⟨c, h2, fun b bs hb => ?_⟩
   have := g2 0 (by rw [hb]; simp)
@@ -217,8 +168,7 @@ example : ∃ c : Nat, Env.get [(2, 256)] 2 = some (c : Int) ∧
     ∀ b bs, Ref.bytes c (Stmt.raw [2, 3]) = b :: bs →
       Img.get [(255, 1), (256, 2), (257, 3)] c = some b :=
   label_is_next_image [.addr 255, .raw [1], .label 2, .raw [2, 3]] [.addr 255, .raw [1]] [] []
-    2 (.raw [2, 3]) _ _ rfl (by decide) (fun c n hc => by simp [Ref.trace, Ref.next] at hc) rfl rfl
-    (fun _ hx => by cases hx) rfl
+    2 (.raw [2, 3]) _ _ rfl (by decide) rfl rfl (fun _ hx => by cases hx) rfl
 
 /-- C05 (position independence of constants, 1): `Ref.pass2` ignores `.const` statements -/
 theorem const_ignored (q r : List Stmt) (c : Option Nat) (im : Img) (n : Nat) (d : List Nat) (v : Int) :
@@ -243,7 +193,7 @@ example : Ref.layout ([Stmt.addr 0] ++ .const 1 [] 7 :: ([.emit 1 [1] [7]] ++ [.
 after its uses, and that both assemble, produce the same image. -/
 theorem forward_equals_backward (q r t : List Stmt) (n : Nat) (d : List Nat) (v : Int) (i1 i2 : Img)
     (h1 : run (q ++ .const n d v :: (r ++ t)) = .ok i1) (h2 : run (q ++ (r ++ .const n d v :: t)) = .ok i2)
-    (hwf : ∀ s ∈ q ++ (r ++ t), s.wf) (hal : NoAlignAtTop (q ++ (r ++ t))) : ∀ a, i1.get a = i2.get a := by
+    (hwf : ∀ s ∈ q ++ (r ++ t), s.wf) : ∀ a, i1.get a = i2.get a := by
   have hwf1 : ∀ s ∈ q ++ .const n d v :: (r ++ t), s.wf = true := by
     intro s hs
     rcases List.mem_append.mp hs with h | h
@@ -260,12 +210,8 @@ theorem forward_equals_backward (q r t : List Stmt) (n : Nat) (d : List Nat) (v 
       · rcases List.mem_cons.mp h with rfl | h
         · rfl
         · exact hwf s (List.mem_append_right _ (List.mem_append_right _ h))
-  have hal1 : NoAlignAtTop (q ++ .const n d v :: (r ++ t)) := (noAlignAtTop_const q (r ++ t) n d v).mpr hal
-  have hal2 : NoAlignAtTop (q ++ (r ++ .const n d v :: t)) := by
-    rw [← List.append_assoc]
-    exact (noAlignAtTop_const (q ++ r) t n d v).mpr (by rw [List.append_assoc]; exact hal)
-  obtain ⟨m1, e1, g1⟩ := run_pass2 _ i1 h1 hwf1 hal1
-  obtain ⟨m2, e2, g2⟩ := run_pass2 _ i2 h2 hwf2 hal2
+  obtain ⟨m1, e1, g1⟩ := run_pass2 _ i1 h1 hwf1
+  obtain ⟨m2, e2, g2⟩ := run_pass2 _ i2 h2 hwf2
   rw [pass2_const] at e1
   rw [← List.append_assoc q r, pass2_const, List.append_assoc] at e2
   rw [e1] at e2; cases e2
@@ -273,27 +219,25 @@ theorem forward_equals_backward (q r t : List Stmt) (n : Nat) (d : List Nat) (v 
 
 example : ∀ a, Img.get [(8, 9), (0, 7)] a = Img.get [(8, 9), (0, 7), (0, 190)] a :=
   forward_equals_backward [.addr 0] [.emit 1 [1] [7], .addr 8] [.raw [9]] 1 [] 7 _ _ rfl rfl (by decide)
-    (fun c n hc => by simp [Ref.trace, Ref.next] at hc)
 
 /-- C05 (forward = backward, general form): any two programs with the same reference layout that both
 assemble produce the same image. -/
 theorem same_reference_same_image (p1 p2 : List Stmt) (i1 i2 ref : Img)
     (h1 : run p1 = .ok i1) (h2 : run p2 = .ok i2) (hwf1 : ∀ s ∈ p1, s.wf) (hwf2 : ∀ s ∈ p2, s.wf)
-    (hal1 : NoAlignAtTop p1) (hal2 : NoAlignAtTop p2)
     (hr1 : Ref.layout p1 = some ref) (hr2 : Ref.layout p2 = some ref) : ∀ a, i1.get a = i2.get a :=
   fun a => by
-    rw [layout_refines_partial p1 i1 ref h1 hwf1 hal1 hr1 a, layout_refines_partial p2 i2 ref h2 hwf2 hal2 hr2 a]
+    rw [layout_refines p1 i1 ref h1 hwf1 hr1 a, layout_refines p2 i2 ref h2 hwf2 hr2 a]
 
 example : ∀ a, Img.get [(0, 7)] a = Img.get [(0, 7)] a :=
   same_reference_same_image [.addr 0, .raw [7]] [.addr 0, .label 3, .raw [7]] _ _ _ rfl rfl (by decide) (by decide)
-    (fun c n hc => by simp [Ref.trace, Ref.next] at hc) (fun c n hc => by simp [Ref.trace, Ref.next] at hc) rfl rfl
+    rfl rfl
 
 /-- C05 (symbol values): the symbol table the machine has built when the last statement has been processed
 IS the table of `Ref.pass1` — every label has the reference address of the next byte, every constant its
 value, and no value ever changes. -/
 theorem symbols_agree (p : List Stmt) (st : State) (h : steps {} p = .ok st) (hwf : ∀ s ∈ p, s.wf)
     (hl : NoLabelAtTop p) : Ref.pass1 none [] p = some st.env :=
-  steps_env2 p {} st none [] rel2_init hwf hl h
+  steps_env p {} st none [] rel_init hwf hl h
 
 example : Ref.pass1 none [] [Stmt.addr 8, .raw [1], .label 4, .const 5 [4] 9] = some [(5, 9), (4, 9)] :=
   symbols_agree [.addr 8, .raw [1], .label 4, .const 5 [4] 9]
